@@ -89,12 +89,16 @@ def run(tier, seed):
     else:
         dag_s, cyc_s, cyc4_s, nx = C.spread(dag, 495), cyc, C.spread(cyc4, 700), 4
     insts = []
-    for u in dag_s:
+    DOTTED = ["1", "1.5", "x.0", "x.0.1"]           # node names containing dots, one a prefix of another, '.0'/'.1' endings
+    NUMERIC = ["0", "2", "3", "1"]
+    for j, u in enumerate(dag_s):
+        v = C.rename_scheme(u, DOTTED[:len(u["nodes"])]) if j % 5 == 1 else (C.rename_scheme(u, NUMERIC[:len(u["nodes"])]) if j % 5 == 3 else u)
         for cls in C.DAG_K + C.DAG_MIN:
-            insts += variants(u, cls, rng, False, nx)
-    for u in cyc_s + cyc4_s:
+            insts += variants(v, cls, rng, False, nx)
+    for j, u in enumerate(cyc_s + cyc4_s):
+        v = C.rename_scheme(u, DOTTED[:len(u["nodes"])]) if j % 5 == 1 else (C.rename_scheme(u, NUMERIC[:len(u["nodes"])]) if j % 5 == 3 else u)
         for cls in C.CYC_K + C.CYC_MIN:
-            insts += variants(u, cls, rng, True, nx)
+            insts += variants(v, cls, rng, True, nx)
     C.with_ids(insts)
     recs = P.drive(insts)
     res.evaluations = len(recs)
